@@ -125,6 +125,10 @@ func (c *Conn) RunPeer(name string, base int, steps []Step, inj *Inject) {
 					return
 				}
 			}
+			if len(st.Send) > 0 && st.Cut && c.C.EOFWithData {
+				c.C.DeliverAndCut(st.Send)
+				return
+			}
 			if len(st.Send) > 0 {
 				c.C.Deliver(st.Send)
 			}
